@@ -728,7 +728,21 @@ func (g *gen) mutate() bool {
 		})
 	case y < 80: // filter rollback
 		if ftipH == 0 {
-			op, obs = "nop", "-"
+			if g.r.Intn(2) == 0 {
+				op, obs = "nop", "-"
+				break
+			}
+			// at genesis there is nothing to roll back: the call must refuse and change nothing
+			op = "rf"
+			nt := w.bhdr[0].BlockHash()
+			obs = w.run(func() string {
+				st, err := w.fs.RollbackLastBlock(&nt)
+				if err != nil {
+					return "err"
+				}
+				return fmt.Sprintf("ok %d:%s", st.Height, w.fname(st.Hash))
+			})
+			g.t.Hit("store.rf.at-genesis")
 			break
 		}
 		op = "rf"
